@@ -16,6 +16,7 @@ import (
 	"os"
 
 	"gitlab.com/gomidi/midi/v2"
+	"gitlab.com/gomidi/midi/v2/drivers/testdrv"
 	"gitlab.com/gomidi/midi/v2/internal/verifh/engine"
 	"gitlab.com/gomidi/midi/v2/internal/verifh/faultio"
 	"gitlab.com/gomidi/midi/v2/internal/verifh/refsmf"
@@ -301,7 +302,13 @@ func readFaults(data []byte, label string) {
 			// the same fault through the track iterator: its Error() must tell
 			fr2 := &faultio.FailReader{Data: data, At: k}
 			var tr *smf.TracksReader
-			c2 := engine.Catch(func() { tr = smf.ReadTracksFrom(fr2) })
+			c2 := engine.Catch(func() {
+				if k%2 == 0 {
+					tr = smf.ReadTracksFrom(fr2)
+				} else {
+					tr = smf.ReadTracksFrom(fr2, 0) // only the first track is wanted: a fault anywhere is still a fault
+				}
+			})
 			ctx.Eval()
 			switch {
 			case c2.Panicked:
@@ -408,6 +415,36 @@ func writeFileFaults() {
 	dests = append(dests, dest{"missing-directory", dir + "/no/such/dir/song.mid"})
 	os.Mkdir(dir+"/adir.mid", 0o755)
 	dests = append(dests, dest{"path-is-a-directory", dir + "/adir.mid"})
+	// smf.RecordTo saves when its stop function is called: a destination that
+	// cannot take the file must make that call return an error
+	for _, d := range dests {
+		ctx.Eval()
+		if d.name == "device-without-space" {
+			os.Remove(d.path)
+			os.Symlink("/dev/full", d.path)
+		}
+		drv := testdrv.New("rec")
+		ins, _ := drv.Ins()
+		outs, _ := drv.Outs()
+		outs[0].Open()
+		var stop func() error
+		var rerr, serr error
+		c := engine.Catch(func() {
+			stop, rerr = smf.RecordTo(ins[0], 120, d.path)
+			if rerr == nil {
+				outs[0].Send([]byte{0x90, 0x3C, 0x40})
+				serr = stop()
+			}
+		})
+		ctx.Add("record_to_fault_cases", 1)
+		switch {
+		case c.Panicked:
+			ctx.Violation(c.Sig+":RecordTo:"+d.name, map[string]interface{}{"kind": "writefile-fault", "destination": d.name, "what": "RecordTo / stop panicked: " + c.Value})
+		case rerr == nil && serr == nil:
+			ctx.Violation("record-to-nil:"+d.name, map[string]interface{}{"kind": "writefile-fault", "destination": d.name,
+				"what": "the stop function of RecordTo returned nil although the file could not be written (" + d.name + ")"})
+		}
+	}
 	for _, d := range dests {
 		for _, n := range []int{0, 1, 30, 400, 900, 1300, 3000, 20000} {
 			ctx.Eval()
